@@ -1,7 +1,7 @@
 #!/bin/sh
 # usage: tools/run_seeded.sh [tier] [ids...]  — runs every seeded change against its property's check
 tier="${1:-quick}"; shift
-cd /verif
+cd "$(cd "$(dirname "$0")/.." && pwd)"
 ids="$@"; [ -z "$ids" ] && ids=$(ls seeded)
 for id in $ids; do
   for m in seeded/$id/*/; do
